@@ -430,3 +430,15 @@ Definition obs_eqb (jobs : list job) (m : outcome * list nat) (i : iobs) : bool 
   | ErrValue, IErrValue => true
   | _, _ => false
   end.
+
+(* ------------------------------------------------------------------ entry points used by the generated case files *)
+(* (jobs, rule, local_search, max_iter, call-back threshold K (on_progress = lambda p: p.iteration >= K), progress_interval,
+    recorded random answers, implementation observable) *)
+Definition jcase := (list job * rule * bool * Z * option nat * Z * list nat * iobs)%type.
+
+Definition run_case (c : jcase) : outcome * list nat :=
+  let '(jobs, rl, ls, mi, k, iv, orc, _) := c in
+  solve jobs rl ls mi (option_map (fun k it => (k <=? it)%nat) k) iv orc.
+
+Definition corr_chk (c : jcase) : bool :=
+  let '(jobs, _, _, _, _, _, _, o) := c in obs_eqb jobs (run_case c) o.
